@@ -439,3 +439,80 @@ func VHHistory() {
 	t := NewWith[int, int](vl.Cmp)
 	maps.VMapHistory(t, maps.VKind{Name: "RedBlackTree", SortedKeys: true, Inv: func() { VInv(t) }})
 }
+
+// vDeepCheck: whole-structure observers on a large tree of concrete shape and symbolic content.
+func vDeepCheck(t *Tree[int, int], ek, ev []int) {
+	VInv(t)
+	v.BeginOp(true, t)
+	keys, vals := t.Keys(), t.Values()
+	v.EndOp()
+	v.Assert(len(keys) == len(ek), "C01,C15:keys-length")
+	v.Assert(len(vals) == len(ek), "C01,C15:values-length")
+	if len(keys) == len(ek) && len(vals) == len(ek) {
+		for i := range ek {
+			v.Assert(keys[i] == ek[i], "C01,C02:keys-in-order")
+			v.Assert(vals[i] == ev[i], "C01:values-position-aligned")
+		}
+	}
+	v.Assert(t.Size() == len(ek), "C01,C15:size")
+	// a full forward and a full backward pass of a fresh iterator
+	v.BeginOp(true, t)
+	it := t.Iterator()
+	i := 0
+	for it.Next() {
+		if i < len(ek) {
+			v.Assert(v.And(it.Key() == ek[i], it.Value() == ev[i]), "C08,C02:forward-iteration")
+		}
+		i++
+	}
+	v.Assert(i == len(ek), "C08:forward-iteration-count")
+	v.Assert(!it.Next(), "C08:next-saturates-at-end")
+	for it.Prev() {
+		i--
+		if i >= 0 && i < len(ek) {
+			v.Assert(v.And(it.Key() == ek[i], it.Value() == ev[i]), "C08,C02:backward-iteration")
+		}
+	}
+	v.Assert(i == 0, "C08:backward-iteration-count")
+	v.EndOp()
+}
+
+func vDeepKeys(n int) ([]int, []int) {
+	ek, ev := make([]int, n), make([]int, n)
+	for i := 0; i < n; i++ {
+		ek[i], ev[i] = v.Int("k"), v.Int("x")
+		if i > 0 {
+			v.Assume(vl.Less(ek[i-1], ek[i]))
+		}
+	}
+	return ek, ev
+}
+
+func vPerfect(parent *Node[int, int], h int, seq *[]*Node[int, int]) *Node[int, int] {
+	if h == 0 {
+		return nil
+	}
+	n := &Node[int, int]{Parent: parent, color: black}
+	n.Left = vPerfect(n, h-1, seq)
+	*seq = append(*seq, n)
+	n.Right = vPerfect(n, h-1, seq)
+	return n
+}
+
+// VHDeep: Keys/Values/full iteration on the perfect all-black tree of height H (2^H - 1 nodes), symbolic keys and values.
+func VHDeep() {
+	H := v.Cfg("H")
+	var seq []*Node[int, int]
+	t := &Tree[int, int]{Comparator: vl.Cmp}
+	t.Root = vPerfect(nil, H, &seq)
+	t.size = len(seq)
+	ek, ev := vDeepKeys(len(seq))
+	for i, n := range seq {
+		n.Key, n.Value = ek[i], ev[i]
+	}
+	vDeepCheck(t, ek, ev)
+	if len(seq) > 0 {
+		v.Assert(t.Left() == seq[0], "C02:left-is-least")
+		v.Assert(t.Right() == seq[len(seq)-1], "C02:right-is-greatest")
+	}
+}
